@@ -12,10 +12,10 @@ var minOblFloor = map[string]int{
 	"C01": 87, "C02": 41, "C03": 59, "C04": 45, "C05": 65, "C06": 17, "C07": 21, "C08": 23,
 	"C09": 36, // enumerated: functions writing Node fields
 	"C10": 29, // enumerated: functions with append / index sites
-	"C11": 16,
+	"C11": 18,
 	"C12": 38, // enumerated: map ranges, clock sites, goroutines on the consensus path
 	"C13": 36, // enumerated: cache inventory
-	"C14": 59, "C15": 18, "C16": 19, "C17": 35, "C18": 28, "C19": 44, "C20": 26, "C21": 39, "C23": 34, "C24": 68, "C25": 48,
+	"C14": 59, "C15": 18, "C16": 19, "C17": 35, "C18": 28, "C19": 44, "C20": 26, "C21": 39, "C23": 37, "C24": 68, "C25": 48,
 	"C26": 26,
 	"C27": 12, // enumerated: loops in the arithmetic closure
 	"C28": 52, "C30": 27, "C31": 8, "C32": 52, "C33": 29, "C34": 19, "C35": 41, "C36": 34, "C37": 37,
